@@ -3,191 +3,191 @@
 # -rapid.checks for the quick / thorough tier; shards_<tier> splits a step over processes).
 CHECKS = {
     "C16": dict(
-        pkg="c16", race=False, level="exploration", timeout_quick=300, timeout_thorough=1500,
+        pkg="c16", race=False, level="exploration", timeout_quick=300, timeout_thorough=3600,
         technique="property-based testing (rapid): reference-equality differential for Equals/Copy, round-trip identities for the codecs; thorough adds coverage-guided native fuzzing of the envelope decoder",
         level_text="Generated-input search: tens of thousands (quick) to ~10^6 (thorough) generated messages, one-component-different message pairs and typed values are pushed through Copy/Equals and every Marshal/Unmarshal pair and compared with an independent reference equality / the original value. Shrunk counter-examples are replayable. Exploration is the right level: the property quantifies over unbounded inputs and the oracle is exact.",
         level_note="Trusted: the harness' reference equality (lib.Snap.Equal), reflect.DeepEqual / proto.Equal, encoding/json and protobuf libraries. Assumes valid UTF-8 strings and finite floats (as the property states). The value families are the harness' own types plus well-known protobuf types, not the user's.",
         steps=[
-            dict(name="copy-equals", run="^(TestCopyLaws|TestEqualsAgreesWithReference)$", quick=6000, thorough=400000, shards_thorough=8),
+            dict(name="copy-equals", run="^(TestCopyLaws|TestEqualsAgreesWithReference)$", quick=6000, thorough=6000000, shards_thorough=8),
             dict(name="codecs", run="^(TestJSONMarshalerRoundTrip|TestProtoMarshalerRoundTrip|TestGogoMarshalerRoundTrip|TestEnvelopeRoundTrip|TestReplyRoundTrip)$",
-                 quick=2500, thorough=160000, shards_thorough=8),
+                 quick=2500, thorough=2400000, shards_thorough=8),
         ],
     ),
 }
 
 CHECKS["C03"] = dict(
-    pkg="c03", race=True, level="exploration", timeout_quick=600, timeout_thorough=2400,
+    pkg="c03", race=True, level="exploration", timeout_quick=600, timeout_thorough=3600,
     technique="bounded-exhaustive enumeration of call sequences against a 3-state model + rapid-generated concurrent histories checked for linearizability (porcupine) under the race detector",
-    level_text="All sequences over {Ack,Nack,probe Acked,probe Nacked} up to length 8 (9 thorough) on four kinds of message are enumerated and compared step by step with the first-wins model (complete for that bound). Concurrent histories of 2..16 goroutines are generated, executed under -race with yield padding and varied GOMAXPROCS, and checked for linearizability against the same model; winner agreement and channel state are checked after the join. Interleavings are sampled, not enumerated, so this is exploration.",
+    level_text="All sequences over {Ack,Nack,probe Acked,probe Nacked} up to length 8 (10 thorough) on four kinds of message are enumerated and compared step by step with the first-wins model (complete for that bound). Concurrent histories of 2..16 goroutines are generated, executed under -race with yield padding and varied GOMAXPROCS, and checked for linearizability against the same model; winner agreement and channel state are checked after the join. Interleavings are sampled, not enumerated, so this is exploration.",
     level_note="Trusted: porcupine's checker, the race detector, one atomic counter as real-time order. Zero-value messages are not probed concurrently with Ack/Nack (documented data race by design, outside the property).",
     steps=[
         dict(name="exhaustive", run="^TestExhaustiveSequences$", quick=1, thorough=1),
-        dict(name="histories", run="^TestConcurrentHistories$", quick=3000, thorough=200000, shards_thorough=15),
+        dict(name="histories", run="^TestConcurrentHistories$", quick=3000, thorough=1500000, shards_thorough=15),
     ],
 )
 
 CHECKS["C02"] = dict(
-    pkg="c02", race=True, level="exploration", timeout_quick=600, timeout_thorough=2400,
+    pkg="c02", race=True, level="exploration", timeout_quick=600, timeout_thorough=3600,
     technique="model-based property testing (rapid) of a running Router between a scripted subscriber and publisher; settlement sampled inside Publish; schedule noise at hook points; race detector",
     level_text="Generated cases (handler behaviour x publisher outcome x handler kind x middleware prefix x 1..6 messages in flight) are run through a real Router whose both ends are scripted, and the observed settlement, handler call count and Publish calls (pointers, order, topic, settlement state during the call) are compared with a model computed from the case. Exploration over a large but finite-shaped case space with random schedules.",
     level_note="Trusted: the scripted Pub/Sub (lib.ScriptSub/ScriptPub) and the model in c02_test.go. Settlement during Publish is sampled at the start and end of the call, so an Ack that lands strictly between is seen at the end sample. 20 s liveness bound for settlement.",
     steps=[
-        dict(name="settlement", run="^TestRouterSettlement$", quick=2000, thorough=64000, shards_thorough=16),
+        dict(name="settlement", run="^TestRouterSettlement$", quick=2000, thorough=640000, shards_thorough=16),
     ],
 )
 
 CHECKS["C08"] = dict(
-    pkg="c08", race=True, level="exploration", timeout_quick=600, timeout_thorough=2400,
+    pkg="c08", race=True, level="exploration", timeout_quick=600, timeout_thorough=3600,
     technique="model-based property testing (rapid) of multi-handler Routers over scripted subscribers/publishers: routing bijection, Publish arguments by pointer identity and content, context accessors",
     level_text="Generated router configurations (1..6 handlers with shared topics/subscribers/publishers, no-publisher handlers, output-adding middleware) receive concurrently interleaved message streams; every handler invocation and every Publish call is recorded and compared with the routing model (which function, which publisher and topic, identical pointers in order, unchanged content, context values).",
     level_note="Trusted: scripted Pub/Sub and the model in c08_test.go. Handlers on the same (subscriber, topic) are indistinguishable to a subscriber; the check demands a bijection channel->handler, the strongest sound statement.",
-    steps=[dict(name="routing", run="^TestRouting$", quick=1500, thorough=48000, shards_thorough=16)],
+    steps=[dict(name="routing", run="^TestRouting$", quick=1500, thorough=700000, shards_thorough=16)],
 )
 
 CHECKS["C09"] = dict(
-    pkg="c09", race=False, level="exploration", timeout_quick=600, timeout_thorough=2400,
+    pkg="c09", race=False, level="exploration", timeout_quick=600, timeout_thorough=3600,
     technique="bounded-exhaustive enumeration of registration programs + rapid-generated programs, exact expected enter/leave trace and decorator tag order as oracle",
-    level_text="Every registration program with up to 5 (quick) / 6 (thorough) middleware registrations over {router-level, handler A, handler B} with the AddHandler calls at every legal position is executed on a real Router and the complete enter/leave trace of each handler is compared with the expected nesting; random programs (up to 20 registrations, 4 handlers, decorator lists up to 5, handler with the empty name) extend this beyond the bound. Complete below the bound, sampled above it.",
+    level_text="Every registration program with up to 5 (quick) / 7 (thorough) middleware registrations over {router-level, handler A, handler B} with the AddHandler calls at every legal position is executed on a real Router and the complete enter/leave trace of each handler is compared with the expected nesting; random programs (up to 20 registrations, 4 handlers, decorator lists up to 5, handler with the empty name) extend this beyond the bound. Complete below the bound, sampled above it.",
     level_note="Trusted: the trace recorder middlewares and the expected-order computation in c09_test.go. Registrations after Run are out of scope.",
     steps=[
         dict(name="exhaustive", run="^TestExhaustiveRegistrations$", quick=1, thorough=1),
-        dict(name="random", run="^TestRandomRegistrations$", quick=2500, thorough=20000, shards_thorough=12),
+        dict(name="random", run="^TestRandomRegistrations$", quick=2500, thorough=400000, shards_thorough=12),
     ],
 )
 
 CHECKS["C12"] = dict(
-    pkg="c12", race=True, level="exploration", timeout_quick=600, timeout_thorough=2400,
+    pkg="c12", race=True, level="exploration", timeout_quick=600, timeout_thorough=3600,
     technique="model-based property testing (rapid) of middleware.Retry against a scripted handler: call count, result identity, hook numbering, back-off band and measured gaps (lower bounds)",
     level_text="Generated Retry configurations and handler outcome scripts are executed with real (millisecond) back-off; the number of handler calls, the identity of the returned outputs/error, the OnRetryHook arguments and the reported/measured delays are compared with a model derived from the documentation, including early give-up on context cancellation and MaxElapsedTime.",
     level_note="Trusted: the model in c12_test.go; wall-clock only as lower bounds plus a 250 ms slack upper bound for MaxElapsedTime. Upper bounds on sleeping are not demanded.",
-    steps=[dict(name="retry", run="^TestRetryModel$", quick=500, thorough=16000, shards_thorough=12),
-           dict(name="concurrent", run="^TestRetryConcurrentMessages$", quick=120, thorough=2400, shards_thorough=4)],
+    steps=[dict(name="retry", run="^TestRetryModel$", quick=500, thorough=120000, shards_thorough=12),
+           dict(name="concurrent", run="^TestRetryConcurrentMessages$", quick=120, thorough=20000, shards_thorough=4)],
 )
 
 CHECKS["C13"] = dict(
-    pkg="c13", race=False, level="exploration", timeout_quick=600, timeout_thorough=2400,
+    pkg="c13", race=False, level="exploration", timeout_quick=600, timeout_thorough=3600,
     technique="model-based property testing (rapid) of the PoisonQueue middleware, stand-alone and inside a running Router over scripted Pub/Subs",
     level_text="Generated (message, handler result, filter, poison-publisher outcome) cases are run through PoisonQueue/PoisonQueueWithFilter stand-alone and in a Router; poison publishes (count, topic, UUID/payload, exact metadata), the returned error/outputs and the settlement (sampled inside the poison Publish and at quiescence) are compared with the model.",
     level_note="Trusted: the model in c13_test.go and the scripted Pub/Subs. The fate of outputs returned together with a poisoned error is outside the property.",
-    steps=[dict(name="standalone", run="^TestPoisonStandAlone$", quick=4000, thorough=120000, shards_thorough=8),
-           dict(name="router", run="^TestPoisonInRouter$", quick=800, thorough=24000, shards_thorough=8)],
+    steps=[dict(name="standalone", run="^TestPoisonStandAlone$", quick=4000, thorough=4000000, shards_thorough=8),
+           dict(name="router", run="^TestPoisonInRouter$", quick=800, thorough=800000, shards_thorough=8)],
 )
 
 CHECKS["C19"] = dict(
-    pkg="c19", race=False, level="exploration", timeout_quick=600, timeout_thorough=2400,
+    pkg="c19", race=False, level="exploration", timeout_quick=600, timeout_thorough=3600,
     technique="differential property testing (rapid): real middleware chains vs chains of obviously-correct reference middlewares on the same scripted handler; sequence tests for DelayOnError and Throttle",
     level_text="Generated chains of up to 3 simple middlewares (optionally with Retry at any position) are executed next to a reference chain on the same scripted handler and message; call count, outputs (object identity and correlation ids), error identity / carried panic value, escaped panics, ack state at handler entry, the deadline seen inside the call, the context state after the call and the delay metadata are compared. DelayOnError is additionally driven through k consecutive failures with real-valued multipliers, Throttle through timed call sequences incl. messages whose context is already done.",
     level_note="Trusted: the reference middlewares in c19_test.go (5-15 lines each). Timeouts are long enough never to expire; wall-clock is used only for lower bounds (Throttle) and deadline bands.",
-    steps=[dict(name="chains", run="^TestChainAgainstReference$", quick=4000, thorough=160000, shards_thorough=10),
-           dict(name="delayseq", run="^TestDelayOnErrorSequence$", quick=2000, thorough=60000, shards_thorough=2),
-           dict(name="throttle", run="^TestThrottleRate$", quick=150, thorough=4000, shards_thorough=4)],
+    steps=[dict(name="chains", run="^TestChainAgainstReference$", quick=4000, thorough=3000000, shards_thorough=10),
+           dict(name="delayseq", run="^TestDelayOnErrorSequence$", quick=2000, thorough=1000000, shards_thorough=2),
+           dict(name="throttle", run="^TestThrottleRate$", quick=150, thorough=40000, shards_thorough=4)],
 )
 
 CHECKS["C20"] = dict(
-    pkg="c20", race=True, level="exploration", timeout_quick=600, timeout_thorough=2400,
+    pkg="c20", race=True, level="exploration", timeout_quick=600, timeout_thorough=3600,
     technique="model-based property testing (rapid) of decorator stacks over scripted Pub/Subs: transparency by pointer identity, delay precedence model, exact Prometheus sample counts from a private registry",
     level_text="Generated decorator stacks (message transform, delay.Publisher, metrics decorators incl. the same one twice) are driven with generated batches, delay sources, PublisherConfig settings and failure scripts; the inner publisher/subscriber records every call, which is compared with the transparency and delay-precedence model; Prometheus counts are gathered from a private registry and must equal the harness' own counts, stand-alone and in a Router with handler outcomes success/error/panic/publish failure.",
     level_note="Trusted: scripted Pub/Subs, the precedence model in c20_test.go, prometheus Gather(). Label values other than success/acked are summed over. The handler metrics middleware is installed once.",
-    steps=[dict(name="pubstacks", run="^TestPublisherStacks$", quick=1500, thorough=60000, shards_thorough=8),
-           dict(name="substacks", run="^TestSubscriberStacks$", quick=300, thorough=8000, shards_thorough=4),
-           dict(name="routermetrics", run="^TestRouterMetrics$", quick=300, thorough=8000, shards_thorough=4)],
+    steps=[dict(name="pubstacks", run="^TestPublisherStacks$", quick=1500, thorough=600000, shards_thorough=8),
+           dict(name="substacks", run="^TestSubscriberStacks$", quick=300, thorough=80000, shards_thorough=4),
+           dict(name="routermetrics", run="^TestRouterMetrics$", quick=300, thorough=80000, shards_thorough=4)],
 )
 
 CHECKS["C15"] = dict(
-    pkg="c15", race=False, level="exploration", timeout_quick=600, timeout_thorough=2400,
+    pkg="c15", race=False, level="exploration", timeout_quick=600, timeout_thorough=3600,
     technique="model-based property testing (rapid) of CQRS buses and processors in a running Router over scripted Pub/Subs: bus Publish round-trip, invoked handler list and settlement against a dispatch model",
     level_text="Generated registries (command / event / event-group processors, JSON and Protobuf marshalers, three name generators, both flags) and message streams (values sent through the real bus incl. zero values, types without handler, malformed payloads, foreign messages, per-delivery failing handlers) are executed in a real Router; the bus Publish and, per delivery, the ordered list of invoked handlers with their values, the original message in the context and the settlement are compared with the model.",
     level_note="Trusted: the dispatch model in c15_test.go, scripted Pub/Subs. The type family is the harness' own JSON structs and four well-known protobuf types.",
-    steps=[dict(name="dispatch", run="^TestCQRSDispatch$", quick=1200, thorough=40000, shards_thorough=16)],
+    steps=[dict(name="dispatch", run="^TestCQRSDispatch$", quick=1200, thorough=2000000, shards_thorough=16)],
 )
 
 CHECKS["C17"] = dict(
-    pkg="c17", race=True, level="exploration", timeout_quick=600, timeout_thorough=2400,
+    pkg="c17", race=True, level="exploration", timeout_quick=600, timeout_thorough=3600,
     technique="model-based property testing (rapid) of Forwarder, FanIn, Requeuer and FanOut between a scripted source (fresh-copy redelivery on Nack) and a scripted destination with generated failure scripts",
     level_text="Generated streams (arbitrary messages, retries counters, malformed envelopes) and destination failure scripts are relayed by the four real components; every destination Publish (topic, UUID/payload/metadata, settlement of the consumed copy inside the call), every settlement and every redelivery is compared with the relay model: no loss once the failures stop, no invention, Ack only after accept, Nack on failure, invalid envelopes never forwarded.",
     level_note="Trusted: scripted Pub/Subs and the relay model in c17_test.go. FanOut order is not demanded (its internal GoChannel promises none).",
-    steps=[dict(name="forwarder", run="^TestForwarder$", quick=300, thorough=10000, shards_thorough=4),
-           dict(name="fanin", run="^TestFanIn$", quick=200, thorough=6000, shards_thorough=4),
-           dict(name="requeuer", run="^TestRequeuer$", quick=200, thorough=6000, shards_thorough=4),
-           dict(name="fanout", run="^TestFanOut$", quick=200, thorough=6000, shards_thorough=4)],
+    steps=[dict(name="forwarder", run="^TestForwarder$", quick=300, thorough=100000, shards_thorough=4),
+           dict(name="fanin", run="^TestFanIn$", quick=200, thorough=60000, shards_thorough=4),
+           dict(name="requeuer", run="^TestRequeuer$", quick=200, thorough=60000, shards_thorough=4),
+           dict(name="fanout", run="^TestFanOut$", quick=200, thorough=60000, shards_thorough=4)],
 )
 
 CHECKS["C14"] = dict(
-    pkg="c14", race=True, level="exploration", timeout_quick=600, timeout_thorough=2400,
+    pkg="c14", race=True, level="exploration", timeout_quick=600, timeout_thorough=3600,
     technique="property-based concurrency testing (rapid): goroutines behind a barrier present generated multisets to the Deduplicator, key classes from an independent reference hash; timed retention sequences; hasher laws as a differential",
     level_text="Generated multisets of messages with payload sizes around the read-limit boundary are presented by up to 32 goroutines at once (several rounds per case, GOMAXPROCS varied) to the middleware and to the publisher decorator; per key class (computed with an independent reference hash) exactly one presentation may pass and all others must be dropped as acked successes. Timed sequences check the lower bound of the retention window and re-acceptance after expiry; the hashers are compared with hash(payload[:min(len,limit)]).",
     level_note="Trusted: the reference hash in c14_test.go, wall-clock used conservatively (retention only asserted for re-presentations that ended inside the window). Interleavings are sampled; the race detector is on.",
-    steps=[dict(name="concurrent", run="^TestConcurrentPresentations$", quick=1000, thorough=40000, shards_thorough=12),
-           dict(name="laws", run="^TestHasherLaws$", quick=3000, thorough=100000, shards_thorough=2),
-           dict(name="retention", run="^TestRetentionWindow$", quick=60, thorough=400, shards_thorough=2)],
+    steps=[dict(name="concurrent", run="^TestConcurrentPresentations$", quick=1000, thorough=320000, shards_thorough=10),
+           dict(name="laws", run="^TestHasherLaws$", quick=3000, thorough=1000000, shards_thorough=2),
+           dict(name="retention", run="^TestRetentionWindow$", quick=60, thorough=3200, shards_thorough=4)],
 )
 
 _GC_NOTE = "Trusted: the history recorder and invariants in harness/gcprog (one atomic logical clock; 'about to settle' stamped before Ack/Nack). Interleavings are sampled (noise, forced parks at hook points, GOMAXPROCS), not enumerated; absence ('nothing else receivable') is observed over hold windows and can only miss violations. A known finding (C05-F1) is excluded by construction."
 CHECKS["C04"] = dict(
-    pkg="c04", race=True, level="exploration", timeout_quick=900, timeout_thorough=3000,
+    pkg="c04", race=True, level="exploration", timeout_quick=900, timeout_thorough=3600,
     technique="property-based testing of generated concurrent programs (rapid) against a real GoChannel with history invariants; schedule perturbation and forced overlaps through hook points; race detector",
     level_text="Generated concurrent Publish/Subscribe programs over all configurations run against the real GoChannel; the complete history (every Publish interval, Subscribe interval, receipt with its message object/content/context, settlement) is recorded and checked: delivery to every current subscriber, redelivery grammar, copy separation, context life cycle.",
     level_note=_GC_NOTE,
-    steps=[dict(name="delivery", run="^TestDelivery$", quick=500, thorough=32000, shards_thorough=16)],
+    steps=[dict(name="delivery", run="^TestDelivery$", quick=500, thorough=160000, shards_thorough=16)],
 )
 CHECKS["C05"] = dict(
-    pkg="c05", race=True, level="exploration", timeout_quick=900, timeout_thorough=3000,
+    pkg="c05", race=True, level="exploration", timeout_quick=900, timeout_thorough=3600,
     technique="property-based testing of generated concurrent programs (rapid) against a real GoChannel: hold-window observation of in-flight exclusivity, blocking-Publish/Ack ordering over the recorded history; known finding reproduced separately",
     level_text="The same program machinery biased to held settlements and blocking mode: the consumer reads its channel while it holds an unsettled message (nothing may arrive), and for blocking mode the history must contain the Ack of every pre-existing subscription before the Publish return stamp, in publish order per publisher; every Publish must return.",
     level_note=_GC_NOTE,
-    steps=[dict(name="inflight", run="^TestOneInFlightAndBlocking$", quick=500, thorough=32000, shards_thorough=15),
+    steps=[dict(name="inflight", run="^TestOneInFlightAndBlocking$", quick=500, thorough=160000, shards_thorough=15),
            dict(name="known-finding", run="^TestKnownFindingF1$", quick=1, thorough=1)],
 )
 CHECKS["C11"] = dict(
-    pkg="c11", race=True, level="exploration", timeout_quick=900, timeout_thorough=3000,
+    pkg="c11", race=True, level="exploration", timeout_quick=900, timeout_thorough=3600,
     technique="property-based testing of generated concurrent Publish/Subscribe programs (rapid) against a persistent GoChannel with forced overlaps at the persist/replay/register hook points; exactly-once multiset oracle at quiescence",
     level_text="Persistent-mode programs with Subscribe calls overlapping Publish calls (forced by parking one side at the hook points between persisting, sending, replaying and registering) are run; at quiescence every subscription must hold exactly one acked delivery of every successfully published message of its topic.",
     level_note=_GC_NOTE,
-    steps=[dict(name="replay", run="^TestReplayExactlyOnce$", quick=500, thorough=32000, shards_thorough=12),
+    steps=[dict(name="replay", run="^TestReplayExactlyOnce$", quick=500, thorough=160000, shards_thorough=12),
            dict(name="longhistory", run="^TestLongHistoryOverlap$", quick=120, thorough=4000, shards_thorough=4)],
 )
 
 CHECKS["C07"] = dict(
-    pkg="c07", race=True, level="fault_enumeration", timeout_quick=900, timeout_thorough=3000,
+    pkg="c07", race=True, level="fault_enumeration", timeout_quick=900, timeout_thorough=3600,
     technique="bounded-exhaustive pairwise enumeration (operation parked at a hook point x interleaving operation x consumer state x config x decorator depth) with forced schedules, plus rapid-generated concurrent programs with an early Close; termination/closure/leak oracle; race detector",
     level_text="The complete table of (configuration, decorator depth, operation A parked at each of its hook points, operation B, consumer state) is enumerated (quick: one eighth chosen by seed; thorough: all entries over 16 shards); in every entry B is invoked while A is parked, then A is released and the Pub/Sub closed. Every call must return, every output channel must close, Publish/Subscribe must fail afterwards and no Pub/Sub goroutine may remain; random programs with a Close landing between generated Publish calls extend this beyond pairs.",
     level_note="Trusted: the hook controller (park/release), goroutine-dump based leak detection, 10 s liveness bounds re-confirmed by one re-run. Entries whose hook point is not reached run unforced and are counted as such. " + _GC_NOTE,
     steps=[dict(name="table", run="^TestPairwiseTable$", quick=1, thorough=1, shards_thorough=12),
-           dict(name="random", run="^TestRandomCloseCancel$", quick=200, thorough=12000, shards_thorough=4)],
+           dict(name="random", run="^TestRandomCloseCancel$", quick=200, thorough=100000, shards_thorough=4)],
 )
 
 CHECKS["C06"] = dict(
-    pkg="c06", race=True, level="exploration", timeout_quick=900, timeout_thorough=3000,
+    pkg="c06", race=True, level="exploration", timeout_quick=900, timeout_thorough=3600,
     technique="property-based testing (rapid) of Router shutdown scenarios with forced schedules: the subject message is parked at a generated point of its path (hook points / handler gate / emitted inside the subscriber's Close) while 1..8 callers invoke Close; state sampled synchronously at every Close return and at Run's return",
     level_text="Generated shutdown scenarios over handler sets, CloseTimeouts, caller counts, path points and release delays run against a real Router with scripted subscribers/publishers (and a GoChannel variant). Handler progress and settlement of every emitted message are sampled in the calling goroutine at the instant each Close call returns, at Run's return and after a 50 ms window, and compared with the graceful-close contract; time-outs must surface as an error in time.",
     level_note="Trusted: the hook controller, synchronous sampling in the caller goroutine, scripted Pub/Subs. The path points are those instrumented; schedules between un-instrumented instructions are reached only by noise. 10 s liveness bounds re-confirmed once.",
-    steps=[dict(name="close", run="^TestGracefulClose$", quick=160, thorough=6000, shards_thorough=16)],
+    steps=[dict(name="close", run="^TestGracefulClose$", quick=160, thorough=36000, shards_thorough=16)],
 )
 
 CHECKS["C10"] = dict(
-    pkg="c10", race=True, level="exploration", timeout_quick=900, timeout_thorough=3000,
+    pkg="c10", race=True, level="exploration", timeout_quick=900, timeout_thorough=3600,
     technique="stateful model-based testing (rapid state machine) of the Router lifecycle API over scripted subscribers, plus a forced schedule parking RunHandlers right after Started() closes; race detector",
     level_text="rapid drives random lifecycle programs (AddHandler before/after Run, Run, RunHandlers repeated and concurrent, Stop, context cancel, Close, probes) against a real Router and checks a model after every step: subscriptions per handler, Running() vs subscriptions, probe handling, Stop/Stopped usability, Run's return, second Run. The Started()->Stop() window is forced by parking the starter at a hook point.",
     level_note="Trusted: the lifecycle model in c10_test.go, scripted subscribers. Shutting down while a handler added after Run was never started is outside the property (documented need to call RunHandlers).",
-    steps=[dict(name="machine", run="^TestLifecycleMachine$", quick=300, thorough=12000, shards_thorough=12),
-           dict(name="forced-stop", run="^TestStopRightAfterStarted$", quick=100, thorough=3000, shards_thorough=4)],
+    steps=[dict(name="machine", run="^TestLifecycleMachine$", quick=300, thorough=240000, shards_thorough=12),
+           dict(name="forced-stop", run="^TestStopRightAfterStarted$", quick=100, thorough=60000, shards_thorough=4)],
 )
 
 CHECKS["C18"] = dict(
-    pkg="c18", race=True, level="exploration", timeout_quick=900, timeout_thorough=3000,
+    pkg="c18", race=True, level="exploration", timeout_quick=900, timeout_thorough=3600,
     technique="property-based testing (rapid) of concurrent request-reply programs: real command bus/processor/backend over a GoChannel reply topic, commands relayed through a scripted subscriber, reply publisher wrapped to sample settlement; listener termination checked before the caller drains",
     level_text="Generated programs of 1..32 concurrent callers with handler scripts (failures producing several replies through Nack redelivery), both AckCommandErrors settings, optional time-outs and caller behaviours that stop reading or cancel at different moments run against the real request-reply components; every received reply, every command settlement relative to its reply Publish, the finish hook per request, reply-channel closure and leftover listener goroutines are checked.",
     level_note="Trusted: the scripted command relay, the reply-publisher wrapper and the goroutine-dump based leak detection. The terminal time-out reply is exempt from the own-command rule.",
-    steps=[dict(name="requestreply", run="^TestRequestReply$", quick=150, thorough=6000, shards_thorough=16)],
+    steps=[dict(name="requestreply", run="^TestRequestReply$", quick=150, thorough=90000, shards_thorough=16)],
 )
 
 CHECKS["C01"] = dict(
-    pkg="c01", race=True, level="fault_enumeration", timeout_quick=900, timeout_thorough=3000,
+    pkg="c01", race=True, level="fault_enumeration", timeout_quick=900, timeout_thorough=3600,
     technique="fault-script enumeration and rapid-generated fault sequences on real Router/GoChannel pipelines (faults injected in handlers and in a publisher wrapper on the k-th call), lineage-based at-least-once oracle and ack-after-accept invariant over every invocation",
     level_text="Pipelines of real Routers over real GoChannels are run with scripted faults: every placement of up to 2 faults (5 kinds x k in 1..3) on small pipelines is enumerated, longer random fault scripts cover all shapes (fan-in, fan-out, 1..4 stages, blocking, per-hop instances) with schedule noise. Every source message must reach the final topic for every path, everything at the final topic must derive from a published source with the expected transform, and every invocation's consumed copy must be unsettled inside its output Publish and end Acked only after a successful Publish, otherwise Nacked.",
     level_note="Trusted: the fault-injecting publisher wrapper, lineage bookkeeping in handler metadata, bounded liveness (10 s, re-confirmed). Crash points (process death) are not modelled: GoChannel is in-process.",
     steps=[dict(name="exhaustive", run="^TestExhaustiveFaultPlacements$", quick=1, thorough=1),
-           dict(name="random", run="^TestRandomPipelines$", quick=300, thorough=20000, shards_thorough=15)],
+           dict(name="random", run="^TestRandomPipelines$", quick=300, thorough=120000, shards_thorough=15)],
 )
 
 NOT_APPLICABLE = {}
